@@ -1,6 +1,8 @@
 import U3.Lemmas.Resp
 import U3.Lemmas.RespIO
 import U3.Lemmas.RespWitness
+import U3.Lemmas.RespDrain
+import U3.Lemmas.RespDrainWitness
 /-!
 # C13 — a cut-off or corrupt response is never presented as complete
 
@@ -11,11 +13,18 @@ EOF where a line should start) raises `ProtocolError` and closes; decoder errors
 `DecodeError`; an unfinished zstd frame fails `flush`; `_error_catcher` closes and releases the
 connection on every unclean exit.
 
+Round 2: `read()` on every *broken chunked* body (`Broken`: the lenient reference reader finds the
+framing incomplete or a size line unparseable) raises ProtocolError through `http.client`'s chunk
+reader; `drain_conn()` on a short Content-Length body or a broken chunked body leaves the connection
+closed (never released open), on a complete body it leaves it released and unclosed; in general the
+connection survives `drain_conn()` only if `http.client` read the body to its end without an exception.
+
 The `read1()` defect (a short Content-Length body ended silently) is repaired in the code:
 `C13_eof_before_length_raises` is the general statement, `C13_read1_none_raises` the former negation
 witness turned positive.  `C13_truncated_raises` at full strength ("for every call sequence") is
 still **false** of the code as it is for truncated zstd streams; the `…_silent` theorems are
-kernel-evaluated counter-examples (read(n) on a truncated zstd stream; MultiDecoder.flush).
+kernel-evaluated counter-examples (read(n) on a truncated zstd stream; MultiDecoder.flush; a corrupt
+gzip member after the first, swallowed as "trailing garbage").
 
   -- full statement (refuted by C13_zstd_incomplete_read_n_silent):
   -- theorem C13_truncated_raises (ht : ¬ lenientComplete w) : ∀ calls, endSignalled (runCalls d w calls) → False
@@ -162,6 +171,183 @@ theorem C13_read1_none_raises :
     err (read hSrc cdDec cfgNone r0 none (some false)) = some .protocolError := by
   decide +kernel
 
+/-! ### chunked bodies through `http.client`'s chunk reader, and `drain_conn()`
+
+`Broken cl c` (Lemmas/RespDrain) is the lenient reference reader's verdict "framing incomplete or
+chunk-size line unparseable" on the bytes `c` that arrived before the peer's FIN, from the position
+`cl` of `http.client`'s chunk bookkeeping — the Lean counterpart of `lenient_chunked` in
+harness/props/c13.py returning `incomplete` / `unparseable`. -/
+
+/-- **`read()` on a broken chunked body** — cut inside a chunk, before the CRLF after a chunk, before
+the terminating zero-size chunk, or with a size line `int(x, 16)` rejects, after any number of whole
+chunks, for every segmentation and from every position: `http.client`'s `_read_chunked` raises
+`IncompleteRead`, `_error_catcher` turns it into ProtocolError, the response and the connection are
+closed and the connection is handed back closed.  (Closes the gap "chunked through
+`http.client._read_chunked`" of the first round; urllib3's own parser: `C13_bad_chunk_raises`.) -/
+theorem C13_truncated_raises_chunked {δ : Type} (D : Dec δ) (cfg : Cfg δ) (r : R H δ) (f : Fp)
+    (dco : Option Bool) (cache : Bool)
+    (hf : r.fp.fp = some f) (hcl : r.fp.closed = false) (hh : r.fp.head = false) (hc : r.fp.chunked = true)
+    (hb : Broken r.fp.chunkLeft f.content) (hconn : r.conn = true) :
+    let res := read hSrc D cfg r none dco cache
+    res.1 = .error .protocolError ∧ res.2.connClosed = true ∧ res.2.released = true ∧
+    res.2.conn = false ∧ res.2.fp.isclosed = true := by
+  obtain ⟨g1, _⟩ := initDec_other cfg r
+  obtain ⟨h', e⟩ := hRead_broken_none r.fp f hf hh hc hb
+  obtain ⟨r1, hr⟩ := rawRead_h_error cfg (initDec cfg r) .incompleteRead h' (by rw [g1]; exact hcl)
+    (by rw [g1]; exact e)
+  obtain ⟨_, c1, c2, c3, c4⟩ := drainConn_raw_error hSrc D cfg hSrc_close_isclosed r _ r1 hr hconn
+  intro res
+  have : res = (.error .protocolError, r1) := read_none_error hSrc D cfg r dco cache _ r1 hr
+  rw [this]
+  exact ⟨rfl, c1, c2, c3, c4⟩
+
+/-- non-vacuity: a chunk of 5 with 2 bytes before EOF; a whole chunk then EOF instead of the next
+size line; a whole chunk then an unparseable size line -/
+example : Broken none (lit "5\r\nab") := .line _ 4 (by decide) (.short 4 _ (by decide))
+example : Broken none (lit "2\r\nab\r\n") :=
+  .line _ 1 (by decide) (.data 1 _ (by decide) (.sep _ (by decide) (.badline _ (by decide))))
+example : Broken none (lit "2\r\nab\r\nzz\r\ncd\r\n0\r\n\r\n") :=
+  .line _ 1 (by decide) (.data 1 _ (by decide) (.sep _ (by decide) (.badline _ (by decide))))
+example : Broken (some 3) (lit "ab") := .short 2 _ (by decide)
+example : Broken (some 0) (lit "\r") := .nosep _ (by decide)
+
+/-- … and the response `begin()` makes of such a wire meets the other hypotheses -/
+example :
+    let h := (respChunked wireChunkedCut 3).fp
+    h.head = false ∧ h.chunked = true ∧ h.closed = false ∧ h.chunkLeft = none ∧
+    h.fp.map (·.content) = some (lit "5\r\nab") ∧ (respChunked wireChunkedCut 3).conn = true := by
+  decide +kernel
+
+/-- **`drain_conn()` on a body shorter than its Content-Length** (the hypotheses of
+`C13_truncated_raises_content_length`): it returns normally — the ProtocolError is swallowed —,
+and the response and the connection are closed; the connection goes back to the pool closed, never
+open -/
+theorem C13_drain_closes_content_length {δ : Type} (D : Dec δ) (cfg : Cfg δ) (r : R H δ) (f : Fp) (l : Nat)
+    (hf : r.fp.fp = some f) (hcl : r.fp.closed = false) (hh : r.fp.head = false)
+    (hc : r.fp.chunked = false) (hl : r.fp.length = some l) (hlen : f.content.length < l)
+    (hconn : r.conn = true) :
+    let res := drainConn hSrc D cfg r
+    res.1 = .ok () ∧ res.2.connClosed = true ∧ res.2.released = true ∧ res.2.conn = false ∧
+    res.2.fp.isclosed = true := by
+  obtain ⟨g1, _⟩ := initDec_other cfg r
+  have h1 := hRead_length_short r.fp f l hf hh hc hl hlen
+  have e : hRead r.fp none = (.error .incompleteRead, (hRead r.fp none).2) := Prod.ext h1.1 rfl
+  obtain ⟨r1, hr⟩ := rawRead_h_error cfg (initDec cfg r) .incompleteRead _ (by rw [g1]; exact hcl)
+    (by rw [g1]; exact e)
+  obtain ⟨c0, c1, c2, c3, c4⟩ := drainConn_raw_error hSrc D cfg hSrc_close_isclosed r _ r1 hr hconn
+  intro res
+  have : res = (.ok (), r1) := c0
+  rw [this]
+  exact ⟨rfl, c1, c2, c3, c4⟩
+
+/-- **`drain_conn()` on a broken chunked body** (the hypotheses of `C13_truncated_raises_chunked`):
+returns normally, response and connection closed, the connection handed back closed -/
+theorem C13_drain_closes_chunked {δ : Type} (D : Dec δ) (cfg : Cfg δ) (r : R H δ) (f : Fp)
+    (hf : r.fp.fp = some f) (hcl : r.fp.closed = false) (hh : r.fp.head = false) (hc : r.fp.chunked = true)
+    (hb : Broken r.fp.chunkLeft f.content) (hconn : r.conn = true) :
+    let res := drainConn hSrc D cfg r
+    res.1 = .ok () ∧ res.2.connClosed = true ∧ res.2.released = true ∧ res.2.conn = false ∧
+    res.2.fp.isclosed = true := by
+  obtain ⟨g1, _⟩ := initDec_other cfg r
+  obtain ⟨h', e⟩ := hRead_broken_none r.fp f hf hh hc hb
+  obtain ⟨r1, hr⟩ := rawRead_h_error cfg (initDec cfg r) .incompleteRead h' (by rw [g1]; exact hcl)
+    (by rw [g1]; exact e)
+  obtain ⟨c0, c1, c2, c3, c4⟩ := drainConn_raw_error hSrc D cfg hSrc_close_isclosed r _ r1 hr hconn
+  intro res
+  have : res = (.ok (), r1) := c0
+  rw [this]
+  exact ⟨rfl, c1, c2, c3, c4⟩
+
+/-- the model computes it on the two damaged chunked wires (segmentation 3) -/
+example :
+    let s1 := drainConn hSrc cdDec cfgChunkedNone (respChunked wireChunkedCut 3)
+    let s2 := drainConn hSrc cdDec cfgChunkedNone (respChunked wireChunkedBadLine 3)
+    err s1 = none ∧ s1.2.connClosed = true ∧ s1.2.released = true ∧
+    err s2 = none ∧ s2.2.connClosed = true ∧ s2.2.released = true ∧
+    err (read hSrc cdDec cfgChunkedNone (respChunked wireChunkedBadLine 3) none (some true)) = some .protocolError := by
+  decide +kernel
+
+/-- **after `drain_conn()` the connection is open only if `http.client` read the body to its end**:
+for EVERY response state that still holds its connection — any framing, any damage, any position, any
+decoder — either `drain_conn()` leaves the connection closed, or the underlying file had been closed
+before, or `http.client`'s `read()` of the whole remaining body returned without an exception
+(which it does not on a short Content-Length body or a broken chunked body: the two theorems
+above).  No exception inside `_raw_read` can leave a still-open connection behind — the seeded defect
+that drained `_fp` directly and released by hand breaks exactly this. -/
+theorem C13_drain_closed_unless_read_to_end {δ : Type} (D : Dec δ) (cfg : Cfg δ) (r : R H δ)
+    (hconn : r.conn = true) :
+    (drainConn hSrc D cfg r).2.connClosed = true ∨ r.fp.closed = true ∨
+    ∃ d, (hRead r.fp none).1 = .ok d := by
+  obtain ⟨g1, _⟩ := initDec_other cfg r
+  cases hcl : r.fp.closed with
+  | true => exact Or.inr (Or.inl rfl)
+  | false =>
+    generalize hres : hRead r.fp none = res
+    obtain ⟨x, h'⟩ := res
+    cases x with
+    | ok d => exact Or.inr (Or.inr ⟨d, rfl⟩)
+    | error e =>
+      left
+      obtain ⟨r1, hr⟩ := rawRead_h_error cfg (initDec cfg r) e h' (by rw [g1]; exact hcl) (by rw [g1]; exact hres)
+      obtain ⟨c0, c1, _⟩ := drainConn_raw_error hSrc D cfg hSrc_close_isclosed r _ r1 hr hconn
+      rw [c0]
+      exact c1
+
+example : (respChunked wireChunkedCut 3).conn = true := rfl
+
+/-- **`drain_conn()` on a complete body** — intact Content-Length / close-delimited framing (`HI`) or
+intact chunked framing (`CI`), any decoder obeying the streaming law, decoding on, from any point of
+the body (also after partial reads): it returns, the response file is closed, the connection has
+been *released* and the response has **not** closed it: it is reusable (for a close-delimited body
+`http.client` has closed the socket itself, `will_close`) -/
+theorem C13_drain_complete_released {δ : Type} (D : Dec δ) (cfg : Cfg δ) {G : δ → Bytes → Bytes → Prop}
+    (hD : StreamLaw D G) (hdef : cfg.decodeDefault = true) (r : R H δ) (rest : Bytes)
+    (hinv : Inv cfg hRem HI G r rest ∨ Inv cfg cRem CI G r rest)
+    (hconn : r.conn = true) (hnc : r.connClosed = false) :
+    ∃ r', drainConn hSrc D cfg r = (.ok (), r') ∧ r'.released = true ∧ r'.conn = false ∧
+      r'.connClosed = false ∧ r'.fp.isclosed = true := by
+  rcases hinv with hinv | hinv
+  · obtain ⟨r', h1, _, _, h4, h5, h6⟩ := drainConn_complete hSrc D cfg (hSrc_rawReadAllSpec cfg) hD
+      (hSrc_closesAll cfg) hdef r rest hinv
+    exact ⟨r', h1, (h6 hconn).1, (h6 hconn).2, by rw [h5]; exact hnc, h4⟩
+  · obtain ⟨r', h1, _, _, h4, h5, h6⟩ := drainConn_complete hSrc D cfg (hSrc_rawReadAllSpec_chunked cfg) hD
+      (hSrc_closesAll_chunked cfg) hdef r rest hinv
+    exact ⟨r', h1, (h6 hconn).1, (h6 hconn).2, by rw [h5]; exact hnc, h4⟩
+
+example : StreamLaw cdDec CDGall := cdDec_streamLaw
+example : Inv cfgGzipHello hRem HI CDGall respGzipHello (lit "hello") := inv_gzipHello
+example : Inv cfgGzipChunked cRem CI CDGall respChunkedGzipHello (lit "hello") := inv_chunkedGzipHello
+example : respGzipHello.conn = true ∧ respGzipHello.connClosed = false ∧ cfgGzipHello.decodeDefault = true :=
+  ⟨rfl, rfl, rfl⟩
+
+/-- … and with `decode_content=False` as the response default (nothing decoded so far) -/
+theorem C13_drain_complete_released_raw {δ : Type} (D : Dec δ) (cfg : Cfg δ)
+    (hdef : cfg.decodeDefault = false) (r : R H δ) (raw : Bytes)
+    (hinv : RawInv hRem HI r raw ∨ RawInv cRem CI r raw)
+    (hconn : r.conn = true) (hnc : r.connClosed = false) :
+    ∃ r', drainConn hSrc D cfg r = (.ok (), r') ∧ r'.released = true ∧ r'.conn = false ∧
+      r'.connClosed = false ∧ r'.fp.isclosed = true := by
+  rcases hinv with hinv | hinv
+  · obtain ⟨r', h1, _, h4, h5, h6⟩ := drainConn_complete_raw hSrc D cfg (hSrc_rawReadAllSpec cfg)
+      (hSrc_closesAll cfg) hdef r raw hinv
+    exact ⟨r', h1, (h6 hconn).1, (h6 hconn).2, by rw [h5]; exact hnc, h4⟩
+  · obtain ⟨r', h1, _, h4, h5, h6⟩ := drainConn_complete_raw hSrc D cfg (hSrc_rawReadAllSpec_chunked cfg)
+      (hSrc_closesAll_chunked cfg) hdef r raw hinv
+    exact ⟨r', h1, (h6 hconn).1, (h6 hconn).2, by rw [h5]; exact hnc, h4⟩
+
+example : RawInv hRem HI respGzipHello gzipHello := rawInv_gzipHello
+
+/-- the model computes both outcomes on the gzip response "hello" after a partial `read(2)`:
+complete body → released, not closed; `Content-Length: 5` with only "ab" → closed -/
+example :
+    let s1 := read hSrc cdDec cfgGzipHello respGzipHello (some 2) (some true)
+    let s2 := drainConn hSrc cdDec cfgGzipHello s1.2
+    let s3 := read hSrc cdDec cfgGzipHello s2.2 (some 5) (some true)
+    let t := drainConn hSrc cdDec cfgNone (respOf wireShortCL 0 (some (lit "5")) false (some 5))
+    out s1 = some (lit "he") ∧ err s2 = none ∧ s2.2.released = true ∧ s2.2.connClosed = false ∧
+    out s3 = some [] ∧ err t = none ∧ t.2.released = true ∧ t.2.connClosed = true := by
+  decide +kernel
+
 /-! ### negation witnesses (known findings that are not repaired) -/
 
 /-- close-delimited zstd frame of "hello" cut two bytes short: `read(64)` returns "hel", then b"";
@@ -179,6 +365,33 @@ because `MultiDecoder.flush` only flushes the first-listed decoder -/
 theorem C13_multidecoder_inner_zstd_silent :
     let r0 := respOf wireStackCut 0 none true none
     out (read hSrc cdDec cfgStack r0 none (some true)) = some (lit "h") := by
+  decide +kernel
+
+/-- after a truncated zstd body has been consumed by `read(64)` calls that ended silently, a final
+`read()` ends silently too (finding `silent-end:zstd-incomplete:read()-after-drained`) -/
+theorem C13_zstd_incomplete_read_all_after_drained_silent :
+    let r0 := respOf wireZstdCut 0 none true none
+    let s1 := read hSrc cdDec cfgZstd r0 (some 64) (some true)
+    let s2 := read hSrc cdDec cfgZstd s1.2 (some 64) (some true)
+    let s3 := read hSrc cdDec cfgZstd s2.2 none (some true)
+    out s2 = some [] ∧ out s3 = some [] := by
+  decide +kernel
+
+/-- **a corrupt gzip member after the first is swallowed** (finding
+`silent-end:gzip-later-member-corrupt`): two members "hello" + "hello", one CRC-32 byte of the second
+flipped, framing intact.  zlib reports "incorrect data check" on the second member; `GzipDecoder`
+(state OTHER_MEMBERS) swallows the error as "trailing garbage", so no API raises — and the bytes
+delivered depend on the read pattern: `read()` returns "hello" (the output of the failing
+`decompress()` call is lost with the exception), `stream(3)` / `read(3)` loops return "hellohello"
+(the data bytes had been handed out before the checksum arrived), both end normally, and
+`drain_conn()` / `read()` release the connection unclosed. -/
+theorem C13_gzip_later_member_corrupt_silent :
+    let r0 := respOf wireGzipLaterCorrupt 3 (some (lit "56")) false (some 56)
+    let a := read hSrc cdDec cfgGzipHello r0 none (some true)
+    let b := stream hSrc cdDec cfgGzipHello r0 (some 3) (some true)
+    out a = some (lit "hello") ∧ out (read hSrc cdDec cfgGzipHello a.2 none (some true)) = some [] ∧
+    b.1.2 = none ∧ b.1.1.flatten = lit "hellohello" ∧
+    a.2.released = true ∧ a.2.connClosed = false := by
   decide +kernel
 
 end U3.Props
